@@ -148,7 +148,8 @@ class Check(CheckBase):
         return cs
 
     def config(self, tier, case):
-        return engine.Config(ob_rlimit=int(os.environ.get("C02_RLIMIT", "600000000")), soft_alternatives=6)
+        return engine.Config(ob_rlimit=int(os.environ.get("C02_RLIMIT", "600000000")), soft_alternatives=6, soft_samples=60,
+                             approx_rlimit=60_000_000, approx_timeout_ms=45_000)
 
     def expected_reach(self, tier):
         return ["lemma", "move_dist_t3/given:snap", "move_dist_t3/given:nosnap", "move_dist_t3/clear:snap",
